@@ -100,6 +100,8 @@ class Case:
                 CTX.pre.append(v[name].n > 0)
             elif kind == "angle":
                 v[name] = angle_input(name, opts.get("lo", "0"))
+            elif kind == "hyp":
+                v[name] = R.hangle(name)
             elif kind == "timeof":
                 # t such that rate*t is the angle atom opts['angle']
                 th = v[opts["angle"]]
@@ -125,6 +127,8 @@ class Case:
                 out.append(name)
             elif kind == "angle":
                 out += [f"c_{name}", f"s_{name}", f"val_{name}"]
+            elif kind == "hyp":
+                out += [f"ch_{name}", f"sh_{name}", f"val_{name}"]
         return out + ["PI"]
 
     def obligations(self):
@@ -170,6 +174,8 @@ class Case:
                 if opts.get("lo", "0") == "0":
                     a %= 2 * math.pi
                 v[name] = a
+            elif kind == "hyp":
+                v[name] = math.asinh(_f(model.get(f"sh_{name}", 0.0)))
             elif kind == "timeof":
                 v[name] = v[opts["angle"]] / v[opts["rate"]]
         return v
